@@ -296,7 +296,7 @@ func checkPhrase(c *codecCase) (string, string) {
 var malKinds = []string{"unknown-typo", "unknown-prefix", "unknown-suffix", "upper-case", "mixed-case", "double-space", "leading-space", "trailing-space",
 	"tab-separator", "newline-separator", "nbsp-separator", "word-removed", "word-added", "30-words", "36-words", "wrong-decoder", "empty", "only-spaces", "comma-separated", "unicode-lookalike", "trailing-newline",
 	"word-removed+trailing-space", "word-removed+leading-space", "word-removed+double-space", "two-words-removed+two-spaces", "word-added+trailing-space", "suffix-on-six-letter-word", "word+NUL", "count-same-size-mod-256", "two-tabs", "two-newlines", "tab-and-newline-wrapped",
-	"one-letter-upper-inside", "one-letter-other-byte", "token-outside-list-order", "rune-low-byte-is-the-letter"}
+	"one-letter-upper-inside", "one-letter-other-byte", "token-outside-list-order", "rune-low-byte-is-the-letter", "complete-phrase+junk-tail", "complete-phrase+two-trailing-blanks"}
 
 // bytes that sit next to, or alias onto, the lower-case letters under arithmetic a decoder might do on them
 var nearLetterBytes = []byte{'`', '{', '@', '[', '|', '}', '~', '0', '9', '-', '\'', '_', '.', 0x7f, 0x80, 0x81, 0xe1, 0xfa, 0x01, 0x1f}
@@ -340,7 +340,7 @@ func checkMalformed(c *codecCase) (string, string) {
 
 func TestMalformed(t *testing.T) {
 	r := ev.New(t, prop, "TestMalformed")
-	r.Rule("rapid: a valid 32- or 34-word phrase damaged by ONE named edit (unknown word by typo/prefix/suffix - re-drawn until it is not a list word -, upper/mixed case, ONE letter upper-cased or replaced by a byte next to the letter range, a token outside the list's alphabetical range, a code point whose low byte is the original letter, double/leading/trailing space, tab/newline/NBSP/comma separators, word removed/added, 30/36 words, phrase given to the other size's decoder, empty, only spaces, look-alike letter) must be refused with an explicit message and never decoded (32-word phrases also by dilithium.NewDilithiumFromMnemonic, which must not build a key); non-trivial = every case, distinct by (edit, phrase)")
+	r.Rule("rapid: a valid 32- or 34-word phrase damaged by ONE named edit (unknown word by typo/prefix/suffix - re-drawn until it is not a list word -, upper/mixed case, ONE letter upper-cased or replaced by a byte next to the letter range, a token outside the list's alphabetical range, a code point whose low byte is the original letter, a complete phrase followed by an even number of junk tokens, double/leading/trailing space, tab/newline/NBSP/comma separators, word removed/added, 30/36 words, phrase given to the other size's decoder, empty, only spaces, look-alike letter) must be refused with an explicit message and never decoded (32-word phrases also by dilithium.NewDilithiumFromMnemonic, which must not build a key); non-trivial = every case, distinct by (edit, phrase)")
 	checks := r.PerShard(r.Pick(12000, 300000))
 	r.Rapid(t, "mal", checks, func(rt *rapid.T) {
 		size := rapid.SampledFrom([]int{48, 51}).Draw(rt, "size")
@@ -396,6 +396,14 @@ func TestMalformed(t *testing.T) {
 			hi := rapid.SampledFrom([]int{0x100, 0x200, 0x400, 0x1e00, 0x2100, 0x4e00, 0xff00, 0x10000, 0x1f600}).Draw(rt, "plane")
 			ws[pos] = w[:i] + string(rune(hi+int(w[i]))) + w[i+1:]
 			c.Phrase = join()
+		case "complete-phrase+junk-tail":
+			// every word of the phrase is fine and the count is right; an EVEN number of further tokens follows, the first
+			// of them not a list word (a note, a label, the same word capitalised): a decoder that stops at the first
+			// unknown word has already filled its 48 / 51 bytes
+			tails := [][]string{{"(dilithium", "backup)"}, {"Splash", "splash"}, {"-", "-"}, {"#1", "of", "2", "copies"}, {"xx", words[rapid.IntRange(0, 4095).Draw(rt, "tw")]}, {"", "x"}}
+			c.Phrase = join() + " " + strings.Join(tails[rapid.IntRange(0, len(tails)-1).Draw(rt, "tail")], " ")
+		case "complete-phrase+two-trailing-blanks":
+			c.Phrase = join() + "  "
 		case "token-outside-list-order":
 			tok := rapid.SampledFrom(outsideTokens).Draw(rt, "tok")
 			if inList(tok) {
